@@ -106,6 +106,23 @@ def check_case(ctx, case):
             p = os.path.join(d, "cat.csv")
             files.write_csep_csv(p, events, catalog_id=3, frac="us")
             o = call(lambda: csep.load_catalog(p, filters=list(strs), apply_filters=True))
+    elif plan == "load_catalog_region":
+        # apply_filters=True with a region: statements AND spatial filter
+        L = lattice.Lattice(case["region"])
+        region = L.build("from_origins")
+        inside = []
+        for e in want:
+            sure, cands = L.classify(e[3], e[2], False)
+            if not sure and cands:
+                ctx.count("skipped:ambiguous_point")
+                return
+            if sure:
+                inside.append(e)
+        want = inside
+        with tempfile.TemporaryDirectory() as d:
+            p = os.path.join(d, "cat.csv")
+            files.write_csep_csv(p, events, catalog_id=3, frac="us")
+            o = call(lambda: csep.load_catalog(p, filters=list(strs), region=region, apply_filters=True))
     else:
         raise ValueError(plan)
     if not o.ok:
@@ -118,7 +135,7 @@ def check_case(ctx, case):
             kind = "filter_wrong:datetime_statement"
         ctx.violation(kind, {"plan": plan, "stmts": strs, "n_got": len(got), "n_want": len(want),
                              "got_ids": [g[0] for g in got][:10], "want_ids": [w[0] for w in want][:10]})
-    if plan != "load_catalog":
+    if plan not in ("load_catalog", "load_catalog_region"):
         if in_place:
             if o.value is not src:
                 ctx.violation("in_place_returned_other_object", None)
@@ -150,15 +167,14 @@ def check_spatial(ctx, case):
     region = o.value
     pts = case["points"]
     events = [("e%d" % i, i, p[1], p[0], 1.0, 5.0) for i, p in enumerate(pts)]
-    keep, amb = [], 0
+    keep, amb = [], set()
     for i, p in enumerate(pts):
         sure, cands = L.classify(p[0], p[1], ctor == "ctor_mask")
         if sure:
             keep.append(i)
         elif cands:
-            amb += 1
-            ctx.count("skipped:ambiguous_point")
-            return
+            amb.add(i)   # within slack of a boundary: either answer is admissible (C01 covers these)
+            ctx.count("ambiguous_points_left_out")
     for in_place in (True, False):
         for via in ("arg", "bound"):
             src = CSEPCatalog(data=list(events), region=region if via == "bound" else None)
@@ -166,10 +182,10 @@ def check_spatial(ctx, case):
             if not o.ok:
                 ctx.unexpected(o, "filter_spatial")
                 continue
-            got = [int(t) for t in o.value.get_epoch_times()]
+            got = [int(t) for t in o.value.get_epoch_times() if int(t) not in amb]
             if got != keep:
                 ctx.violation("filter_spatial_wrong", {"got": got[:10], "want": keep[:10], "n_got": len(got), "n_want": len(keep)})
-            elif not same(rows(o.value), [list(events[i]) for i in keep]):
+            elif not same([r for r in rows(o.value) if r[1] not in amb], [list(events[i]) for i in keep]):
                 ctx.violation("filter_spatial_changed_fields", None)
             if not in_place and src.event_count != len(events):
                 ctx.violation("filter_spatial_mutated_source", None)
@@ -222,6 +238,21 @@ def cases(draw, max_events=40):
     case = {"k": "filter", "events": ev, "stmts": stmts, "plan": plan, "in_place": draw(st.booleans())}
     if plan in ("chained", "permuted"):
         case["order"] = list(draw(st.permutations(list(range(ns)))))
+    if plan == "load_catalog" and draw(st.booleans()):
+        # with a region: place the events relative to a generated lattice
+        case["plan"] = "load_catalog_region"
+        rc = draw(lattice.lattices(max_n=4, flags=False))
+        rc["dh_mode"] = "decimal"
+        case["region"] = rc
+        L = lattice.Lattice(rc)
+        for e in ev:
+            i = draw(st.integers(-1, L.nx))
+            j = draw(st.integers(-1, L.ny))
+            fx, fy = draw(st.sampled_from([0, 0.25, 0.5, 0.75])), draw(st.sampled_from([0, 0.25, 0.5, 0.75]))
+            x0, y0 = L._coord(L.lon0, L.i0 + i), L._coord(L.lat0, L.j0 + j)
+            e[3] = x0 if fx == 0 else x0 + fx * L.fdh
+            e[2] = y0 if fy == 0 else y0 + fy * L.fdh
+        # thresholds on latitude / longitude were drawn from the old pools: keep them, they are still legitimate statements
     return case
 
 
